@@ -234,16 +234,28 @@ func uniq(xs []string) []string {
 // expectedWalk is the documented walk on the abstract graph: rules in order; a
 // delegated file is entered only through a matching rule and only once; a
 // matching terminating rule with a delegated file cuts the rest of its own
-// file. When a file can be reached a second time (duplicate rule names, self
-// delegation - shapes that cannot be loaded from a repository) the statement
-// does not say whether a terminating rule whose file was already entered still
-// cuts; cutAlways selects the reading. With unique names and no cycle both
-// readings coincide. set(cutAlways=true) is always a subset of
-// set(cutAlways=false).
-func expectedWalk(c c06Case, cutAlways bool) []c06Consulted {
+// file. When a file can be reached through more than one matching rule
+// (duplicate rule names, self delegation - shapes that, but for self
+// delegation, cannot be loaded from a repository) the statement does not say
+// whether a terminating rule whose file was already entered still cuts, and
+// which of the rules enters the file depends on the traversal order, which
+// gittuf chooses differently from a strict pre-order (remaining siblings are
+// consulted before a delegated file's rules). narrow=true is the reading with
+// the most cuts (a matching terminating rule with a file always cuts), narrow=false
+// the one with the fewest (it cuts only if it is the only matching rule naming
+// that file). With unique names and no cycle both readings coincide.
+func expectedWalk(c c06Case, narrow bool) []c06Consulted {
 	byName := map[string]c06File{}
 	for _, f := range c.Files {
 		byName[f.Name] = f
+	}
+	pointing := map[string]int{} // matching rules naming a file, over the whole graph
+	for _, f := range c.Files {
+		for _, r := range f.Rules {
+			if r.matches(c.Path) {
+				pointing[r.Name]++
+			}
+		}
 	}
 	entered := map[string]bool{"targets": true}
 	var out []c06Consulted
@@ -258,13 +270,12 @@ func expectedWalk(c c06Case, cutAlways bool) []c06Consulted {
 			if !has {
 				continue
 			}
-			if !entered[r.Name] {
+			first := !entered[r.Name]
+			if first {
 				entered[r.Name] = true
 				walk(sub)
-				if r.Term {
-					return
-				}
-			} else if r.Term && cutAlways {
+			}
+			if r.Term && (narrow || (first && pointing[r.Name] == 1)) {
 				return
 			}
 		}
@@ -390,8 +401,8 @@ func runC06(s *kit.Session, c c06Case) *kit.Failure {
 			}
 		}
 	}
-	want := expectedWalk(c, false)
-	wantMin := expectedWalk(c, true)
+	want := expectedWalk(c, false)   // fewest cuts
+	wantMin := expectedWalk(c, true) // most cuts
 	anyMatch = len(want) > 0
 	{
 		// every rule of the narrow reading must be consulted, nothing outside the
